@@ -53,6 +53,7 @@ func prop(c Case) error {
 	if err != nil {
 		return fmt.Errorf("build: %v", err)
 	}
+	enc := wkt.NewEncoder() // one encoder value for every Encode call of the case, as a caller keeps it
 	if c.Poison {
 		bad := geom.NewGeometryCollection()
 		if err := bad.Push(t, geom.NewPoint(geom.NoLayout)); err != nil {
@@ -64,6 +65,9 @@ func prop(c Case) error {
 		if txt, err := wkt.Marshal(bad, wkt.EncodeOptionWithMaxDecimalDigits(3)); err == nil {
 			return fmt.Errorf("wkt.Marshal of a collection with a NoLayout member succeeded: %q", txt)
 		}
+		if txt, err := enc.Encode(bad); err == nil {
+			return fmt.Errorf("Encoder.Encode of a collection with a NoLayout member succeeded: %q", txt)
+		}
 	}
 	held := model.Leaves(t) // the caller's aliases of the coordinates, taken before any call
 	// (a) the encoder's text is accepted by the library's own parser
@@ -71,8 +75,10 @@ func prop(c Case) error {
 	if err != nil {
 		return fmt.Errorf("wkt.Marshal: %v", err)
 	}
-	if enc, err := wkt.NewEncoder().Encode(t); err != nil || enc != text {
-		return fmt.Errorf("NewEncoder().Encode = %q, %v; Marshal = %q", enc, err, text)
+	for i := 0; i < 2; i++ {
+		if got, err := enc.Encode(t); err != nil || got != text {
+			return fmt.Errorf("Encoder.Encode (call %d on an encoder value that is kept) = %q, %v; Marshal = %q", i+1, got, err, text)
+		}
 	}
 	back, err := wkt.Unmarshal(text)
 	if err != nil {
